@@ -452,6 +452,7 @@ class PubSubRun:
             self.res.add(self.prop, "model_anomaly", an)
         by_conn = {a.conn: a for a in self.actors if a.sock is not None}
         self.by_conn = by_conn
+        self.oracle_wrongly_closed(model, by_conn)
         if self.prop == "C01":
             self.oracle_c01(model, by_conn)
         elif self.prop == "C05":
@@ -465,6 +466,40 @@ class PubSubRun:
     def received_tagged(self, a: Actor):
         frames, left = a.received()
         return [(h, p) for (h, p) in frames if h.send_time >= TAG_BASE], left
+
+    def oracle_wrongly_closed(self, model, by_conn):
+        """Every statement presupposes that a client which behaves stays connected: the manager may close a
+        connection only when its peer has left (EOF / reset read, write failed or swallowed), said DISCONNECT,
+        was refused at connect, or declared a payload length outside the manager's bounds."""
+        net = self.w.net
+        res = self.res
+        ended = defaultdict(list)
+        for s_, c_, _how in net.ends:
+            ended[c_].append(s_)
+        for s_, c_ in net.voids:
+            ended[c_].append(s_)
+        bad_len = {fr.conn for fr in net.reads if fr.hdr.num_data_bytes < 0 or fr.hdr.num_data_bytes > 1024 ** 2}
+        for seq, conn in net.closes:
+            m = model.conns.get(conn)
+            if m is None:
+                continue
+            if any(s_ <= seq for s_ in ended.get(conn, ())):
+                continue
+            if m.removed_how in ("disconnect", "refused") and m.removed_seq is not None and m.removed_seq <= seq:
+                continue
+            if conn in bad_len:
+                continue
+            a = by_conn.get(conn)
+            if a is None:
+                continue
+            if not a.alive:
+                ds = getattr(a, "death_seq", None)
+                if ds is None or ds <= seq:
+                    continue
+            res.add(self.prop, "wrongly_closed",
+                    f"the manager closed the connection of {a.name} (conn {conn}, id {m.mod_id}) although the client was "
+                    f"alive, had not asked to leave and had sent nothing that permits it", sig="wrongly_closed")
+        res.probes["closes_judged"] += len(net.closes)
 
     def oracle_c01(self, model, by_conn, prop="C01", clause_prefix=""):
         res = self.res
